@@ -346,3 +346,25 @@ def replay_preempt_overtime_server(prop, v):
 
 
 REPLAYS["Node.decide_preempt"] = replay_preempt_overtime_server
+
+
+def replay_dynamic_classes_attribute(prop, v):
+    """whole-run witness (D1): two nodes, class changes while waiting configured; the first sweep of update_next_event_date reaches a
+    node that has had no customer yet"""
+    ciw = _ciw()
+    N = ciw.create_network(
+        arrival_distributions={'A': [ciw.dists.Deterministic(1.0), None], 'B': [None, None]},
+        service_distributions={'A': [ciw.dists.Deterministic(0.5), ciw.dists.Deterministic(0.5)], 'B': [ciw.dists.Deterministic(0.5), ciw.dists.Deterministic(0.5)]},
+        number_of_servers=[1, 1],
+        routing={'A': [[0.0, 1.0], [0.0, 0.0]], 'B': [[0.0, 1.0], [0.0, 0.0]]},
+        class_change_time_distributions={'A': {'B': ciw.dists.Deterministic(5.0)}, 'B': {}})
+    Q = ciw.Simulation(N)
+    try:
+        Q.simulate_until_max_time(3)
+    except AttributeError as e:
+        return dict(confirmed=True, kind="whole-run",
+                    transcript=f"2 nodes in tandem, class_change_time_distributions given: simulate_until_max_time(3) raises AttributeError({e})")
+    return dict(confirmed=False, kind="whole-run", transcript="run completed")
+
+
+REPLAYS["Node.__init__"] = replay_dynamic_classes_attribute
